@@ -218,3 +218,144 @@ pub fn maps<const DIR: u8, const WHICH: u8>() {
     }
     kani::cover!(true, "reached end");
 }
+
+/// Scalars with the string/binary/optional fields present
+#[cfg(kani)]
+pub fn scalars_rest<const DIR: u8, const WHICH: u8>() {
+    let i32v: i32 = kani::any();
+    let oi: i32 = kani::any();
+    let s = any_faststr::<1>();
+    let sb = s.as_bytes()[0];
+    let p: [u8; 2] = kani::any();
+    let l: &'static [u8; 2] = Box::leak(Box::new(p));
+    let mut e = rt::Out::<48>::new();
+    rt::bin_field(&mut e, rt::bt::I32, 4, false);
+    rt::bin_i32(&mut e, i32v, false);
+    rt::bin_field(&mut e, rt::bt::BINARY, 7, false);
+    rt::bin_binary(&mut e, &[sb], false);
+    rt::bin_field(&mut e, rt::bt::BINARY, 8, false);
+    rt::bin_binary(&mut e, &l[..], false);
+    rt::bin_field(&mut e, rt::bt::I32, 9, false);
+    rt::bin_i32(&mut e, oi, false);
+    e.put(0);
+    if DIR == D_W {
+        let v = tb::Scalars { b: None, i8v: None, i16v: None, i32v, i64v: None, d: None, s: Some(s), bin: Some(Bytes::from_static(&l[..])), oi: Some(oi), color: None };
+        check_w(&v, &e, WHICH);
+        core::mem::forget(v);
+    } else {
+        let n = e.n;
+        let mut b = static_input(e.b);
+        b.truncate(n);
+        let mut r = PBin::reader(&mut b);
+        let got: tb::Scalars = ok(Message::decode(&mut r));
+        kani::assert(got.i32v == i32v && got.oi == Some(oi), "C02: emitted decode recovers the integer fields");
+        let s_ok = match &got.s { Some(t) => t.len() == 1 && t.as_bytes()[0] == sb, None => false };
+        let b_ok = match &got.bin { Some(t) => t.len() == 2 && t[0] == p[0] && t[1] == p[1], None => false };
+        kani::assert(s_ok && b_ok, "C02: emitted decode recovers string and binary fields");
+        kani::assert(got.b.is_none() && got.d.is_none() && got.color.is_none(), "C02: absent optionals stay empty");
+        kani::assert(PBin::remaining(&mut r) == 0, "C02: decode consumes exactly the encoded bytes");
+        core::mem::forget(got);
+        core::mem::forget(r);
+        core::mem::forget(b);
+    }
+    kani::cover!(true, "reached end");
+}
+
+/// union U: variant B (string) and variant C (struct)
+#[cfg(kani)]
+pub fn union_bc<const DIR: u8, const WHICH: u8, const VARIANT: u8>() {
+    let x: i32 = kani::any();
+    let s = any_faststr::<2>();
+    let sb = [s.as_bytes()[0], s.as_bytes()[1]];
+    let mut e = rt::Out::<32>::new();
+    if VARIANT == 0 {
+        rt::bin_field(&mut e, rt::bt::BINARY, 2, false);
+        rt::bin_binary(&mut e, &sb, false);
+    } else {
+        rt::bin_field(&mut e, rt::bt::STRUCT, 3, false);
+        rt::bin_field(&mut e, rt::bt::I32, 1, false);
+        rt::bin_i32(&mut e, x, false);
+        e.put(0);
+    }
+    e.put(0);
+    if DIR == D_W {
+        let v = if VARIANT == 0 { tb::U::B(s) } else { tb::U::C(tb::Inner { x, s: None }) };
+        check_w(&v, &e, WHICH);
+        core::mem::forget(v);
+    } else {
+        let n = e.n;
+        let mut b = static_input(e.b);
+        b.truncate(n);
+        let mut r = PBin::reader(&mut b);
+        let got: tb::U = ok(Message::decode(&mut r));
+        let good = match &got {
+            tb::U::B(t) => VARIANT == 0 && t.len() == 2 && t.as_bytes()[0] == sb[0] && t.as_bytes()[1] == sb[1],
+            tb::U::C(i) => VARIANT == 1 && i.x == x && i.s.is_none(),
+            _ => false,
+        };
+        kani::assert(good, "C02: emitted union decode recovers the variant from its reference encoding");
+        kani::assert(PBin::remaining(&mut r) == 0, "C02: decode consumes exactly the encoded bytes");
+        core::mem::forget(got);
+        core::mem::forget(r);
+        core::mem::forget(b);
+    }
+    kani::cover!(true, "reached end");
+}
+
+/// Inner over the COMPACT protocol (no bool fields: emitted decode + compact + bool is a
+/// recorded observation, DESIGN.md §6). (w): all x; (r): fields sent as [s, x] so that the
+/// symbolic zigzag varint of x (LX bytes) comes last.
+#[cfg(kani)]
+pub fn inner_compact<const DIR: u8, const WHICH: u8, const LX: usize>() {
+    let s = any_faststr::<1>();
+    let sb = s.as_bytes()[0];
+    if DIR == D_W {
+        let x: i32 = kani::any();
+        let mut e = rt::Out::<32>::new();
+        rt::cmp_field(&mut e, 0, 1, rt::ct::I32, false);
+        rt::cmp_i32(&mut e, x);
+        rt::cmp_field(&mut e, 1, 2, rt::ct::BINARY, false);
+        rt::cmp_binary(&mut e, &[sb]);
+        e.put(0);
+        let v = tb::Inner { x, s: Some(s) };
+        let n;
+        {
+            let mut tw = BytesMut::with_capacity(32);
+            let mut t = PCompact::writer(&mut tw);
+            n = v.size(&mut t);
+            core::mem::forget(t);
+            core::mem::forget(tw);
+        }
+        let mut out = BytesMut::with_capacity(32);
+        {
+            let mut w = PCompact::writer(&mut out);
+            ok(v.encode(&mut w));
+            PCompact::finish(w);
+        }
+        chk!(WHICH == C04, out.len() == n, "C04: size() equals the bytes encode() writes (generated type, compact)");
+        chk!(WHICH == C02, e.eq_bytes(&out[..]), "C02: emitted encode writes the reference compact encoding");
+        core::mem::forget(v);
+        core::mem::forget(out);
+    } else {
+        let (vx, ux) = crate::l1::sym_zz_varint::<LX>();
+        let mut e = rt::Out::<32>::new();
+        rt::cmp_field(&mut e, 0, 2, rt::ct::BINARY, false);
+        rt::cmp_binary(&mut e, &[sb]);
+        rt::cmp_field(&mut e, 2, 1, rt::ct::I32, false); // id goes down: long form
+        e.put_all(&vx);
+        e.put(0);
+        let n = e.n;
+        let mut b = static_input(e.b);
+        b.truncate(n);
+        let mut r = PCompact::reader(&mut b);
+        let got: tb::Inner = ok(Message::decode(&mut r));
+        let want = rt::unzigzag64(ux) as i32;
+        let s_ok = match &got.s { Some(t) => t.len() == 1 && t.as_bytes()[0] == sb, None => false };
+        kani::assert(got.x == want && s_ok, "C02: emitted decode recovers the value from its reference compact encoding");
+        kani::assert(PCompact::remaining(&mut r) == 0, "C02: decode consumes exactly the encoded bytes");
+        core::mem::forget(got);
+        core::mem::forget(r);
+        core::mem::forget(b);
+    }
+    kani::cover!(true, "reached end");
+}
